@@ -83,6 +83,15 @@ func (p *Program) closure(roots []*ssa.Function, o cgOpts) map[*ssa.Function]*cg
 				continue
 			}
 			if o.ModuleOnly && !p.inModule(cal) {
+				// library code that calls back into the module on the same goroutine (singleflight.Do, sort.Slice, sync.Once.Do ...):
+				// look through up to three external frames for module callees
+				for _, back := range p.throughExternal(cal, 3) {
+					if seen[back] != nil || (o.SkipFunc != nil && o.SkipFunc(back)) {
+						continue
+					}
+					seen[back] = &cgStep{Parent: fn, Site: e.Site, Depth: st.Depth + 1}
+					queue = append(queue, back)
+				}
 				continue
 			}
 			if p.isChainPkgFunc(cal, "Run") {
@@ -205,4 +214,47 @@ func isTimerChan(v ssa.Value) bool {
 		}
 	}
 	return false
+}
+
+var extCache = map[*Program]map[*ssa.Function][]*ssa.Function{}
+
+// throughExternal: module functions synchronously called from an external function within `depth` external frames.
+func (p *Program) throughExternal(ext *ssa.Function, depth int) []*ssa.Function {
+	if extCache[p] == nil {
+		extCache[p] = map[*ssa.Function][]*ssa.Function{}
+	}
+	if r, ok := extCache[p][ext]; ok {
+		return r
+	}
+	var out []*ssa.Function
+	seen := map[*ssa.Function]bool{ext: true}
+	frontier := []*ssa.Function{ext}
+	for d := 0; d < depth && len(frontier) > 0; d++ {
+		var next []*ssa.Function
+		for _, f := range frontier {
+			n := p.CG.Nodes[f]
+			if n == nil {
+				continue
+			}
+			for _, e := range n.Out {
+				if _, isGo := e.Site.(*ssa.Go); isGo {
+					continue
+				}
+				c := e.Callee.Func
+				if seen[c] {
+					continue
+				}
+				seen[c] = true
+				if p.inModule(c) {
+					out = append(out, c)
+				} else {
+					next = append(next, c)
+				}
+			}
+		}
+		frontier = next
+	}
+	sort.Slice(out, func(i, j int) bool { return out[i].String() < out[j].String() })
+	extCache[p][ext] = out
+	return out
 }
